@@ -332,7 +332,12 @@ vfps::ProgramOptions::ProgramOptions() :
  */
 bool vfps::ProgramOptions::parse(int ac, char** av)
 {
-    po::store(po::parse_command_line(ac, av, _commandlineopts), _vm);
+    // No positional arguments are defined:
+    // a token that belongs to no option is an error (and not silently dropped).
+    po::store(po::command_line_parser(ac, av)
+              .options(_commandlineopts)
+              .positional(po::positional_options_description())
+              .run(), _vm);
     po::notify(_vm);
 
     if (_vm.count("help")) {
